@@ -56,7 +56,7 @@ ASSUMPTIONS = [
     "moved_fraction model: each dst block stays where its largest single-src piece lives (docstring), the rest moves",
 ]
 
-EXCLUDE = ("KF-layout-drift-over-shuffle",)
+EXCLUDE = exclusions.RAISES  # programs whose metadata (chunks) or graph cannot even be built
 REL_TOL = 1e-9
 ALIAS_TYPES = ("RootAlias", "ChunksOverride", "ChunksFreeze", "Concatenate", "Blocks")
 PHASES = ("raw", "simplified", "lowered", "fused", "lowered-raw", "materialized")
